@@ -150,7 +150,15 @@ static void exercise(vrng* rp, const item* it, uint8_t* m, size_t n)
     vrng r = *rp;
     if (!strncmp(it->origin, "legacy", 6) && n > 12 && vr_chance(&r, 1, 2)) {
         /* legacy frame layouts (v0.5-v0.7): descriptor / window byte after the magic, 3-byte block headers (type in the top 2 bits, 19..22-bit size) */
-        switch (vr_u(&r, 5)) {
+        switch (vr_u(&r, 6)) {
+        case 5: {   /* a frame assembled for this legacy version: smallest windows + one raw block that announces more than the window (up to and beyond 128 KiB) + end mark;
+                     * the legacy streaming decoders size their input buffer from the window */
+            uint8_t const ver = m[0]; size_t const S = vr_chance(&r, 1, 6) ? (128u << 10) + vr_u(&r, 3) - 1 : 1025 + vr_u(&r, vr_chance(&r, 1, 2) ? 8000 : 130000); size_t const supplied = vr_chance(&r, 1, 4) ? vr_u64(&r, S) : S;
+            uint8_t* f = (uint8_t*)malloc(16 + S + 16); size_t o = 4; memcpy(f, m, 4);
+            if (ver == 0x27) { f[o++] = 0; f[o++] = (uint8_t)(vr_u(&r, 7) << 3); } else f[o++] = (uint8_t)vr_u(&r, 6);      /* v0.7: descriptor + window byte; v0.5 / v0.6: window log in the low bits */
+            f[o++] = (uint8_t)((1u << 6) | ((S >> 16) & 7)); f[o++] = (uint8_t)(S >> 8); f[o++] = (uint8_t)S; vr_fill(&r, f + o, supplied); o += supplied;
+            if (supplied == S) { f[o++] = 0xC0; f[o++] = 0; f[o++] = 0; }
+            free(m); m = f; n = o; g_kind = "legacy:small-window+raw-block-beyond-the-window"; break; }
         case 4: { m[4] = vr_chance(&r, 1, 2) ? (uint8_t)vr_u(&r, 256) : (uint8_t)((m[4] & 0x1C) | vr_u(&r, 4) | (vr_u(&r, 4) << 6) | (vr_u(&r, 2) << 5)); size_t const keep = 5 + vr_u(&r, 18); if (keep < n) n = keep; g_kind = "legacy:descriptor+cut-inside-the-header"; break; }   /* header longer than what is supplied */
         case 0: m[4] = (uint8_t)vr_u(&r, 256); m[5] = (uint8_t)(vr_chance(&r, 1, 2) ? vr_u(&r, 16) : vr_u(&r, 256)); g_kind = "legacy:descriptor/window"; break;
         case 1: { size_t const o = 5 + vr_u(&r, 6); m[o] = (uint8_t)((vr_u(&r, 3) << 6) | 7); m[o + 1] = 0xFF; m[o + 2] = (uint8_t)(0xF0 | vr_u(&r, 16)); g_kind = "legacy:block-header-max-size"; break; }
